@@ -34,7 +34,8 @@ Full statement / proved / missing
   `C09_sh_inv` (index = positions, keys unique — the `Delete` re-numbering is the crux), `C09_sh_index_iff`
   (`index k = some i ↔ entries[i].key = k`), `C09_sh_refine` (every result, the iteration order and the freeze
   flag after every step equal the specification's), `C09_sh_no_fault`, `C09_sh_delete_keeps_reachable`,
-  `C09_sh_frozen` + `C09_sh_frozen_rejected`; `C09_sh_impl_*` instantiate them on the code as it is now —
+  `C09_sh_frozen` + `C09_sh_frozen_rejected`, `C09_sh_equals` + `C09_sh_equals_ext` (Equals = equal lookups,
+  order ignored); `C09_sh_impl_*` instantiate them on the code as it is now —
   proved, full strength.
 * Hash, for ANY table with `HashOK` and ANY history over a pool of hashes (literal, put, merge, delete,
   deleteAll, get, includes, view, and the in-place `MutableHashValue.Put`/`PutAll`):
@@ -142,6 +143,22 @@ theorem C09_sh_index_iff {h : SH β} (hi : SInv h) (k : String) (i : Nat) :
 /-- `Keys`, `Values`, `Len` are projections of the iteration order that `C09_sh_refine` pins down -/
 theorem C09_sh_views (h : SH β) :
     h.keys = h.pairs.map (·.1) ∧ h.values = h.pairs.map (·.2) ∧ h.len = h.pairs.length := ⟨rfl, rfl, rfl⟩
+
+/-- `Equals` never faults and compares the two hashes entry by entry through the other's index … -/
+theorem C09_sh_equals [DecidableEq β] {h o : SH β} (ho : SInv o) :
+    h.equals o = some (equalsSpec h.entries o.entries) := ho.equals
+
+/-- … which for maps is extensional equality of all lookups: the insertion order is ignored -/
+theorem C09_sh_equals_ext [DecidableEq β] {h o : SH β} (hh : SInv h) (ho : SInv o) :
+    h.equals o = some true ↔ ∀ k, h.get k = o.get k := by
+  rw [ho.equals, Option.some.injEq, equalsSpec_iff hh.1 ho.1]
+  constructor
+  · intro hk k; rw [hh.get, ho.get, hk k]
+  · intro hk k
+    have := hk k
+    rw [hh.get, ho.get] at this
+    cases h1 : OMap.get id h.entries k <;> cases h2 : OMap.get id o.entries k <;> simp [h1, h2, optOut] at this ⊢
+    exact this
 
 /-- instantiated on the code as it is now, from the empty hash -/
 theorem C09_sh_impl_inv (ops : List (SOp β)) : SInv (runSHT shFacts (SH.new : SH β) ops).2 :=
